@@ -1,0 +1,107 @@
+//! Verification-only access to crate-private pieces.
+//!
+//! Compiled only with the cargo feature `verif-hooks`; nothing here is used by the
+//! library itself. The hooks forward to crate-private items so that external
+//! verification harnesses can drive them directly.
+
+use crate::{
+    Float,
+    dense::StepInterpolant,
+    ivp::IVP,
+    solout::{ControlFlag, SolOut},
+    solve::{cont::ContinuousOutput, options::Method, solout::DefaultSolOut},
+};
+
+/// Output payload of the default output handler: (t, y, t_events, y_events, dense segments).
+pub type Payload = (
+    Vec<Float>,
+    Vec<Vec<Float>>,
+    Vec<Vec<Float>>,
+    Vec<Vec<Vec<Float>>>,
+    Vec<(Vec<Float>, Float, Float)>,
+);
+
+/// Newtype around the crate-private default output handler of `solve_ivp`.
+pub struct SolOutProbe<'a, F: IVP>(DefaultSolOut<'a, F>);
+
+impl<'a, F: IVP> SolOutProbe<'a, F> {
+    pub fn new(
+        ode: &'a F,
+        t_eval: Option<Vec<Float>>,
+        dense: bool,
+        first_step: Option<Float>,
+        x0: Float,
+        n: usize,
+    ) -> Self {
+        let mut d = DefaultSolOut::new(ode, t_eval, dense, first_step, x0, n);
+        d.verif_reserve(8);
+        Self(d)
+    }
+
+    pub fn call(
+        &mut self,
+        xold: Float,
+        x: &mut Float,
+        y: &mut [Float],
+        interp: Option<&StepInterpolant<'_>>,
+    ) -> ControlFlag {
+        self.0.solout(xold, x, y, interp)
+    }
+
+    pub fn state(&self) -> (usize, bool, usize) {
+        self.0.verif_state()
+    }
+
+    pub fn into_payload(self) -> Payload {
+        self.0.into_payload()
+    }
+}
+
+impl<'a, F: IVP> SolOut for SolOutProbe<'a, F> {
+    fn solout(
+        &mut self,
+        xold: Float,
+        x: &mut Float,
+        y: &mut [Float],
+        interpolant: Option<&StepInterpolant<'_>>,
+    ) -> ControlFlag {
+        self.0.solout(xold, x, y, interpolant)
+    }
+}
+
+/// Forwarder to the crate-private `ContinuousOutput::from_segments`.
+pub fn continuous_from_segments(
+    method: Method,
+    n_states: usize,
+    segs: Vec<(Vec<Float>, Float, Float)>,
+) -> ContinuousOutput {
+    ContinuousOutput::from_segments(method, n_states, segs)
+}
+
+/// Forwarder to the crate-private `ContinuousOutput::constant`.
+pub fn continuous_constant(method: Method, x0: Float, y0: &[Float]) -> ContinuousOutput {
+    ContinuousOutput::constant(method, x0, y0)
+}
+
+// Probe cells written by one-line hooks inside the solvers (plain arrays + accessors).
+const PROBE_N: usize = 4;
+static mut RADAU_RTOL: [Float; PROBE_N] = [0.0; PROBE_N];
+static mut RADAU_ATOL: [Float; PROBE_N] = [0.0; PROBE_N];
+
+/// Called by RADAU after its tolerance transformation, once per component.
+pub fn record_radau_tol(i: usize, r: Float, a: Float) {
+    if i < PROBE_N {
+        unsafe {
+            RADAU_RTOL[i] = r;
+            RADAU_ATOL[i] = a;
+        }
+    }
+}
+
+pub fn radau_rtol(i: usize) -> Float {
+    unsafe { RADAU_RTOL[i] }
+}
+
+pub fn radau_atol(i: usize) -> Float {
+    unsafe { RADAU_ATOL[i] }
+}
